@@ -511,8 +511,11 @@ def check_flag_streams(ctx, case=None, n_modes=None):
     modes = all_modes(case, rng)
     if n_modes is not None:
         # always keep one metadata-only and one with-data opening with synthesised timestamps
-        keep = [m for m in modes if m['n_ts'] is None and m['upgrade'] is not False]
-        first = [next(m for m in keep if m['store'] == 'none'), next(m for m in keep if m['store'] != 'none')]
+        synth = [m for m in modes if m['n_ts'] is None]
+        first = [rng.choice([m for m in synth if m['store'] == 'none']), rng.choice([m for m in synth if m['store'] != 'none'])]
+        for m in first:
+            if m['upgrade'] is False:
+                m['upgrade'] = None
         rest = [m for m in modes if m not in first]
         modes = first + rng.sample(rest, max(0, n_modes - 2))
     x = build_flag_fixture(case, ctx.seed)
